@@ -1,6 +1,6 @@
 """Texts for MANIFEST.json (bin/mkmanifest). One entry per claimed property."""
 
-HOOK_COMMITS = []   # commits in /repo that add `//go:build verif` files (none needed so far)
+HOOK_COMMITS = ["32b2fed"]   # commits in /repo that add `//go:build verif` files (jpeg2000/mqc/verif_export.go: MQ coder register accessors)
 
 NOTES = ("Every check: bin/check <id> --tier quick|thorough; honours VERIF_SEED; rebuilds the driver from /repo's working tree "
          "(go build -tags verif, replace directive). Verdicts are TLC verdicts on ndjson traces of the real library; "
@@ -20,6 +20,38 @@ ENGINES = [
      "serves_properties": ["C10"],
      "kind_free_text": "call-history specification: TLC enumerates/simulates histories, trace spec checks every call against the memo "
                        "defined by solo executions"},
+    {"name": "jpegls", "path": "spec/JpegLS.tla spec/MC_JpegLS.tla spec/MC_JpegLS_h3.tla spec/JlsTrace.tla",
+     "serves_properties": ["C14"],
+     "kind_free_text": "ITU-T T.87 encoder and decoder as explicit TLA+ machines (contexts, bias, Golomb, run mode, ILV none/line/sample, "
+                       "marker grammar); model-checked against each other; trace validation of the library's streams and decodes"},
+    {"name": "jpeglossless", "path": "spec/JpegLossless.tla spec/MC_JpegLossless.tla spec/JllGen.tla spec/JllTrace.tla",
+     "serves_properties": ["C13"],
+     "kind_free_text": "ITU-T T.81 Annex C/F/H lossless process (Huffman tables, DECODE/EXTEND, predictors, edge rules, stuffing, "
+                       "SOF3/DHT/SOS grammar) as TLA+; reference encoder generates streams by simulation; trace validation both ways"},
+    {"name": "markers", "path": "spec/Markers.tla spec/MarkersTrace.tla spec/MQ.tla spec/MC_MQ.tla spec/MqTrace.tla",
+     "serves_properties": ["C16", "C20"],
+     "kind_free_text": "T.81 B / T.87 C / T.800 A marker-segment grammars as a TLA+ walker; T.800 Annex C MQ coder machine; "
+                       "TLC validates every stream the encoders emit and every MQ register trajectory"},
+    {"name": "dwt", "path": "spec/Dwt53.tla spec/MC_Dwt53.tla spec/C20Trace.tla",
+     "serves_properties": ["C20"],
+     "kind_free_text": "T.800 Annex F 5/3 lifting with absolute-coordinate symmetric extension, multi-level Mallat layout, Annex G RCT; "
+                       "perfect reconstruction model-checked; trace validation of wavelet/colorspace/t1 calls"},
+    {"name": "robust", "path": "spec/Robust.tla spec/RobustTrace.tla",
+     "serves_properties": ["C08", "C09"],
+     "kind_free_text": "TLC plans grammar-aware edits of valid template streams (through Markers.tla) and validates the outcome trace "
+                       "(no panic; time and memory against declared sizes computed by the spec)"},
+    {"name": "args", "path": "spec/Args.tla spec/ArgsGen.tla spec/ArgsTrace.tla",
+     "serves_properties": ["C17"],
+     "kind_free_text": "argument-space specification of the encoders (Representable / Sane); TLC generates tuples, trace spec checks the "
+                       "reject-or-round-trip contract"},
+    {"name": "sharedmem", "path": "spec/SharedMem.tla spec/ConcTrace.tla",
+     "serves_properties": ["C18"],
+     "kind_free_text": "interleaving model over the package-level mutable state extracted from /repo's source (go/ast), model-checked "
+                       "for write/any overlaps; -race executions of TLC-scheduled concurrent calls validated against solo results"},
+    {"name": "lossybounds", "path": "spec/JpegDCT.tla spec/DctTrace.tla spec/J2kQuant.tla spec/IrrTrace.tla",
+     "serves_properties": ["C11", "C12"],
+     "kind_free_text": "error bounds derived in TLA+ from the quantisation the stream declares (DQT tables x IDCT/colour gains; QCD step "
+                       "sizes x 9-7 synthesis gains); TLC evaluates them on round-trip traces"},
 ]
 
 A_CONTRACT = ("TLC 1.8.0 and the CommunityModules Json reader are trusted; pixel buffers are unpacked to container words and "
@@ -81,8 +113,81 @@ CHECKS = {
                      "model-checked for all W,H <= 8/12; every (W,H,TW,TH) grid up to 6/12 and seeded grids up to 600 are replayed; "
                      "TLC checks identity and classifies rejections by whether tile-local and absolute geometry coincide.",
                 note=A_CONTRACT + "; most grids fall under a known finding (encoder ignores the tile origin)"),
+
+    "C08": dict(engine="robust", level="fault_enumeration", design_ref="DESIGN.md 7/C08",
+                technique="TLC-planned grammar-aware stream corruption replayed into every decoder; TLC trace validation of outcomes",
+                text="38 valid template streams (every codec, package-level and registered-codec entry points, third-party HTJ2K "
+                     "fixtures); TLC plans single-byte edits of every header byte x a value set, body bytes, every truncation point, "
+                     "random tails, double edits, FrameInfo mismatches; each decode runs under recover() in a child; RobustTrace accepts "
+                     "only ok/error outcomes.",
+                note="grammar-directed enumeration without coverage feedback; deep decoder states only via templates"),
+    "C09": dict(engine="robust", level="fault_enumeration", design_ref="DESIGN.md 7/C09",
+                technique="same plan as C08; TLC computes the declared size from the edited header and bounds time / peak memory",
+                text="Same edit plan; the trace carries wall time, allocation and (second pass) VmHWM peak; RobustTrace computes the "
+                     "size the edited stream declares (saturating arithmetic) and rejects time > budget or memory out of proportion "
+                     "to max(input, declared output).",
+                note="budgets: 10 s, 6 GiB address space; inputs declaring > 2^27 samples are out of the property's stated scope and "
+                     "get a 1 s scheduling budget, verified in scope by TLC; one known finding (HTJ2K layer count)"),
+    "C11": dict(engine="lossybounds", level="model_checking", design_ref="DESIGN.md 7/C11",
+                technique="TLC derives the per-sample bound from the stream's DQT tables and validates round-trip traces",
+                text="baseline (8-bit) and extended (8/12-bit) encoders over quality 1..100 x grey/RGB x 9 content classes x sizes "
+                     "incl. non-multiples of 8/16; TLC parses DQT from the emitted stream, computes the worst-case IDCT-gain bound "
+                     "(JpegDCT.tla) and checks max |out-src|, geometry, and the declared range.",
+                note="bound = sum of half-steps x IDCT basis gains (+ colour-conversion gain and rounding allowance); detects gross "
+                     "and moderate errors, not 1-LSB deviations of the DCT arithmetic"),
+    "C12": dict(engine="lossybounds", level="model_checking", design_ref="DESIGN.md 7/C12",
+                technique="TLC derives the per-sample bound from QCD step sizes and 9-7 synthesis gains and validates round-trip traces",
+                text="irreversible single-tile round trips without a rate target: P {8,12,16} x signed x components {1,3} x quality "
+                     "1..100 x levels 0..6 x code-block sizes x 9 classes; TLC decodes QCD (expounded / derived), computes "
+                     "sum_b gain(b) x step(b) and checks max |out-src|, geometry and range.",
+                note="closed-form infinity-norm gains; fixed rounding allowance of 3 grey levels; not sensitive to errors below the bound"),
+    "C13": dict(engine="jpeglossless", level="model_checking", design_ref="DESIGN.md 7/C13",
+                technique="independent T.81 lossless codec in TLA+: model-checked, reference-encoder streams replayed into the decoder, "
+                          "library streams decoded by the TLA+ decoder",
+                text="MC_JpegLossless: Enc/Dec machines agree for all tiny images x predictors 1..7 x Pt, all 65536 differences "
+                     "EXTEND/category (ASSUME); JllGen simulation produces conformant streams (custom DHT, Td 0..3, Pt, restart-free) "
+                     "that lossless.Decode/lossless14sv1.Decode must decode to the specified samples; every library stream is walked "
+                     "(SOF3/DHT/SOS grammar) and decoded sample by sample by the TLA+ decoder.",
+                note="TLA+ decoding limited to images <= 32x32 per scenario for time; restart intervals not generated"),
+    "C14": dict(engine="jpegls", level="model_checking", design_ref="DESIGN.md 7/C14",
+                technique="independent T.87 codec in TLA+: model-checked encoder/decoder pair; library streams decoded by the TLA+ decoder",
+                text="MC_JpegLS: the T.87 encoder and decoder machines are inverse on all tiny images (P 2/3, NEAR 0..1, ILV "
+                     "none/line/sample for 3 components); JlsTrace steps the TLA+ decoder through every library stream (SOF55/LSE/SOS "
+                     "grammar, thresholds, RESET, run-interruption contexts) and compares every sample, and replays TLA+-encoded "
+                     "streams into jpegls.Decode.",
+                note="images <= 24x24 in trace validation; LSE mapping tables not modelled (the library does not emit them)"),
+    "C16": dict(engine="markers", level="model_checking", design_ref="DESIGN.md 7/C16",
+                technique="TLC walks every emitted stream with the marker grammars of T.81 B / T.87 C / T.800 A",
+                text="Every encoder x configuration lattice of C02..C07/C11/C12: the stream must parse completely (segment lengths, "
+                     "mandatory order, SIZ/COD/QCD field ranges, SOT/Psot/TLM consistency, tile-part indices, no marker codes in "
+                     "packet bodies / MQ segments, JPEG byte stuffing, EOI/EOC at the end) and declare the encoded image.",
+                note="packet headers (T.800 B.10) are length-checked through Psot only, not bit-parsed: seeded change C16-A (a "
+                     "packet-header bit error that the library's decoder tolerates) is not detected"),
+    "C17": dict(engine="args", level="model_checking", design_ref="DESIGN.md 7/C17",
+                technique="TLC-generated argument tuples replayed into every encoder; TLC trace validation of reject-or-round-trip",
+                text="ArgsGen enumerates every single off-nominal argument and pairs of them (dimensions 0/-1/65535/65536, "
+                     "components, bit depth, quality/NEAR/predictor/levels/code-block/layers, buffer lengths) for 8 encoders and the "
+                     "codec-level entry points; ArgsTrace accepts an error, or success whose stream decodes to the input "
+                     "(lossless) / to the declared geometry (lossy); panics and silent corruption are rejected.",
+                note="one known finding (jlsnear accepts NEAR > MAXVAL/2, pinned by an existing test)"),
+    "C18": dict(engine="sharedmem", level="model_checking", design_ref="DESIGN.md 7/C18",
+                technique="SharedMem interleaving model over extracted package state (TLC) + TLC-scheduled concurrent executions under "
+                          "the race detector validated against solo results",
+                text="go/ast extraction of every package-level variable and its writers reachable from codec entry points feeds "
+                     "SharedMem.tla (NoRace over all 2-call overlaps; static obligation: no reachable writer outside init); TLC emits "
+                     "overlap schedules (all same-codec pairs + cross-codec pairs) that vdrive runs with -race, gates forcing overlap; "
+                     "ConcTrace requires each result to equal the solo memo, parameters objects unchanged, no race report.",
+                note="the race detector observes only executed interleavings; known finding: nearlossless SetParameter write-back"),
+    "C20": dict(engine="dwt", level="model_checking", design_ref="DESIGN.md 7/C20",
+                technique="T.800 Annex C/F/G machines model-checked and trace-validated against wavelet, colorspace, mqc and t1",
+                text="MC_Dwt53: InvML(FwdML(x)) = x for all windows <= 4x4 (thorough 5x5) x levels x origin parity, RCT inverse; "
+                     "MC_MQ: Decode(Encode(d)) = d, carry/stuffing invariants for all decision strings <= 10 over 2 contexts; "
+                     "C20Trace/MqTrace validate the library's inverse DWT / RCT outputs against the spec value by value, the MQ "
+                     "encoder's registers and bytes step by step (verif hook), and T1 block identity under every code-block style.",
+                note="EBCOT T1 context formation is not transcribed (contract level only); forward-DWT deviations for length-1 "
+                     "odd-origin windows are reported as INFO (the inverse is consistent); known finding: lazy mode without TERMALL"),
 }
 
 _PENDING = "check not built yet at this commit (construction order in DESIGN.md section 10); no claim is made"
-NOT_APPLICABLE = {p: _PENDING for p in ["C08", "C09", "C11", "C12", "C13", "C14", "C15", "C16", "C17", "C18", "C20"]}
+NOT_APPLICABLE = {p: _PENDING for p in ["C15"]}
 
